@@ -463,6 +463,13 @@ def r4(ctx):
             continue
         num, den = product_form(res)
         num = [x for x in num if not re.fullmatch(r"-?\d+(\.\d*)?", x)]
+        # a mean of pair distances divides by the NUMBER of pairs, a function of how many platforms there are; a divisor
+        # built from line counts (rows' values) is a ratio of pooled sums, not a mean of ratios
+        cnt = re.compile(re.escape(smd) + r"(\.items\(\)\[\d+\]\[1\]|\.values\(\)|\[[^\]]*\](?!\[0\]))")
+        if den and any(cnt.search(x) for x in den) and "distance(" not in res:
+            ctx.violation(key + ":mean", f"divergence divides by `{den[0][:100]}`, which depends on the line counts of the table: the definition is the MEAN of the pair distances (sum of distance(a, b) over the pairs, divided by the number of pairs); a ratio of pooled sums weights every pair by its size", d.loc())
+            n_mean += 1
+            continue
         if len(num) != 1 or "distance(" not in num[0]:
             raise AnalysisError(f"divergence: returned value not recognised as a mean of distances: {res[:120]}")
         i = num[0].find("comp:")
